@@ -148,6 +148,7 @@ def run(tier, seed):
                           f"event {v['k']} of session rejected: {v['verdict']}",
                           {"source": src, "steps": steps, "rejected_event": traces[i]["events"][v["k"] - 1],
                            "backend": "z3"})
+    c01.repo_tests_part(chk, ("solve",))
     ex = next((steps for s, steps in sc if s == "R" and any(x["a"] == "solve" for x in steps)), None)
     chk.sample({"source": "R", "steps": ex})
     chk.exhaustive = False
